@@ -41,7 +41,7 @@ type Config struct {
 	// supervisor reached over a socket, or the orchestrator's goroutine being preempted at that point): a process that
 	// exits at once is then reported dead before Exec has returned
 	ExecReturnLagMs map[string]int `json:"execReturnLagMs,omitempty"`
-	HostileAPIEnv    bool             `json:"hostileApiEnv,omitempty"`    // C16: put a wrong AWS_LAMBDA_RUNTIME_API into the container environment
+	HostileAPIEnv   bool           `json:"hostileApiEnv,omitempty"` // C16: put a wrong AWS_LAMBDA_RUNTIME_API into the container environment
 }
 
 // Script of one launch of one role.
@@ -92,8 +92,8 @@ type Step struct {
 	// response body only after that latch (a caller on a slow link: its socket has a 128 KiB receive buffer)
 	SigHeaders string `json:"sigHeaders,omitempty"`
 	ReadAfter  string `json:"readAfter,omitempty"`
-	SlowBody  string            `json:"slowBody,omitempty"` // latch: the request body is uploaded in two parts, the second after this latch
-	Quiet     bool              `json:"quiet,omitempty"`    // await: a timeout is expected and not worth a note
+	SlowBody   string `json:"slowBody,omitempty"` // latch: the request body is uploaded in two parts, the second after this latch
+	Quiet      bool   `json:"quiet,omitempty"`    // await: a timeout is expected and not worth a note
 }
 
 type HookPlan struct {
